@@ -13,7 +13,7 @@ from .. import build as B
 PROPERTY = "C14"
 LEVEL = "exploration"
 VARIANTS = ["fast"]
-RULE = ("layouts = all sequences of <=2 (quick) / <=3 (thorough) blocks from 14 block kinds (x LF/CRLF), probe = 7 kinds x 3 column offsets, "
+RULE = ("layouts = all sequences of <=2 (quick) / <=3 (thorough) blocks from 19 block kinds (x LF/CRLF), probe = 7 kinds x 3 column offsets, "
         "probe in the main file or inside an included file; a case = (layout, line ending, probe kind, column); non-trivial = layout has "
         "at least one block; distinct by case")
 ASSUMPTIONS = [
@@ -37,6 +37,10 @@ BLOCKS = {
     "ifdef-true": ["#define T", "#ifdef T", "t = 1;", "#else", "t = 2;", "t = 3;", "#endif"],
     "ifdef-false": ["#ifdef NOPE", "f = 1;", "f = 2;", "#else", "f = 3;", "#endif"],
     "ifndef-false-noelse": ["#define K", "#ifndef K", "k = 1;", "#endif"],
+    # line-consuming directives inside an inactive section still consume their physical lines
+    "inactive-define-3lines": ["#ifdef NOPE", "#define Z(a) a \\", "  + 1 \\", "  + 2", "#endif"],
+    "inactive-else-define-2lines": ["#define T2", "#ifdef T2", "a2 = 1;", "#else", "#define W(a) a \\", " + 1", "#endif"],
+    "inactive-directives": ["#ifdef NOPE", "#define Q 1", "#undef Q", '#include "/nonexistent.hpp"', "/* c", " d */", "#endif"],
     "statement": ["s = 1;"],
     "include": ['#include "/inc_a.hpp"'],
     "include-nested": ['#include "/inc_b.hpp"'],
